@@ -539,6 +539,7 @@ class HistogramBase(abc.ABC):
             if amount is not None:
                 if not amount == int(amount):
                     raise ValueError(f"Amount must be integer, {amount} found.")
+                amount = int(amount)
                 bin_map = [(i, i // amount) for i in range(self.shape[axis])]
             elif min_frequency is not None:
                 if self.ndim == 1:
